@@ -91,7 +91,7 @@ func HarnessC18PercentRoundTrip() {
 //verif:harness property=C18
 func HarnessC18PercentDecodeTotal() {
 	pool := newBufferPool()
-	e := nondetString("e", bound("len", 4, 6))
+	e := nondetString("e", bound("len", 5, 7))
 	dec := grpcPercentDecode(pool, e)
 	check(len(dec) <= 3*len(e)+3, "decoder terminates with bounded output")
 }
